@@ -63,6 +63,13 @@ structure RpcClass where
   mro : List Table
   /-- instance `__dict__`: name ↦ "`is_rpc_method(value)`: the value is a plain function with a truthy `_rpc_method`" -/
   inst : List (Name × Bool) := []
+  /-- names of the signals the object publishes (`signal_declaration_class._qmi_signals`) -/
+  sigs : List Name := []
+  /-- union of the `_rpc_constants` lists along the MRO -/
+  consts : List Name := []
+  /-- some class of the MRO (other than `object`) overrides `__getattribute__`: every *dynamic* attribute access on the
+  object runs that code (the static lookup does not) -/
+  getattributeOverride : Bool := false
   deriving Repr
 
 def lookup {β : Type} : List (Name × β) → Name → Option β
@@ -120,12 +127,29 @@ def n_is_locked : Name := encodeName [105, 115, 95, 108, 111, 99, 107, 101, 100]
 def protectedNames : List Name := [n_lock, n_unlock, n_force_unlock, n_is_locked]
 
 inductive PyExc where
-  | usage      -- QMI_UsageException("`name` is a protected method name")
+  | usage           -- QMI_UsageException("`name` is a protected method name")
+  | assertion       -- AssertionError: an `_rpc_constants` entry is missing on the class or is a function
+  | attributeError  -- AttributeError: `QMI_RpcProxy.address` is a property without setter
   deriving DecidableEq, Repr
 
-/-- `make_interface_descriptor(cls)` as called from `QMI_RpcObject.__init__`: the object exists only if this is `ok` -/
+/-- `inspect.isfunction(getattr(cls, name))` -/
+def isFunctionOnClass : Kind → Bool
+  | .func _ _ => true
+  | .staticfn _ _ => true
+  | _ => false
+
+/-- the two `assert`s of the constants section: `hasattr(cls, c)` and `not isfunction(getattr(cls, c))` -/
+def constOk (C : RpcClass) (c : Name) : Bool :=
+  match resolve C.mro c with
+  | none => false
+  | some k => !isFunctionOnClass k
+
+/-- `make_interface_descriptor(cls)` as called from `QMI_RpcObject.__init__`: the object exists only if this is `ok`.
+Methods first (protected names ⇒ `QMI_UsageException`), then signals, then constants (two `assert`s). -/
 def construct (C : RpcClass) : Except PyExc (List Name) :=
-  if (advertised C).any (fun n => protectedNames.contains n) then .error .usage else .ok (advertised C)
+  if (advertised C).any (fun n => protectedNames.contains n) then .error .usage
+  else if C.consts.all (constOk C) then .ok (advertised C)
+  else .error .assertion
 
 /-! ## what `_check_and_get_method` does for a method-name string -/
 
@@ -149,11 +173,13 @@ def instLookup (C : RpcClass) (n : Name) : Got :=
 
 inductive Effect where
   | called (n : Name)        -- the attribute was bound with `getattr` and called with the request's arguments
+  | attrCodeRan (n : Name)   -- a *dynamic* attribute access `obj.<n>` by the dispatcher ran code of the object
   deriving DecidableEq, Repr
 
 inductive Reply where
   | unknownRpc               -- QMI_UnknownRpcException
   | methodResult             -- whatever the invoked method returned / raised
+  | objectLocked             -- state OBJECT_IS_LOCKED, result None
   deriving DecidableEq, Repr
 
 /-- the request passes `_check_and_get_method` and the result is called -/
@@ -174,6 +200,59 @@ def reply (C : RpcClass) (n : Name) : Reply :=
   | .absent => .unknownRpc
   | .value false => .unknownRpc
   | .value true => .methodResult
+
+/-! ## the whole of `_handle_method_rpc_request`: the lock-token test precedes the dispatch -/
+
+abbrev Token := Nat
+
+/-- `self._locking_token is None or self._locking_token == request.lock_token` -/
+def admitted (lock req : Option Token) : Bool :=
+  match lock with
+  | none => true
+  | some t => req == some t
+
+def n__name : Name := encodeName [95, 110, 97, 109, 101]
+
+/-- does the *dynamic* access `obj.<n>` (`object.__getattribute__`, or an override of it) run Python code of the object? -/
+def dynAttrRunsCode (C : RpcClass) (n : Name) : Bool :=
+  C.getattributeOverride ||
+  match resolve C.mro n with
+  | some .prop => true
+  | some .ndprop => (lookup C.inst n).isNone
+  | _ => false
+
+/-- the refused branch logs `self._rpc_object._name` — the only attribute access on the object it makes -/
+def refusedEffects (C : RpcClass) : List Effect :=
+  if dynAttrRunsCode C n__name then [.attrCodeRan n__name] else []
+
+/-- `_handle_method_rpc_request`: (reply, code of the object that ran) for lock state `lock`, request token `req`
+and method name `n` -/
+def handle (C : RpcClass) (lock req : Option Token) (n : Name) : Reply × List Effect :=
+  if admitted lock req then (reply C n, effects C n) else (.objectLocked, refusedEffects C)
+
+/-! ## the proxy built from the descriptor (`QMI_RpcProxy.__init__`) -/
+
+def n_address : Name := encodeName [97, 100, 100, 114, 101, 115, 115]
+def n_rpc_nonblocking : Name :=
+  encodeName [114, 112, 99, 95, 110, 111, 110, 98, 108, 111, 99, 107, 105, 110, 103]
+
+/-- The proxy sets, in this order and on the *same* instance: constants, one forwarding stub per descriptor method,
+one subscriber per signal, then `rpc_nonblocking`.  `address` is a property of `QMI_RpcProxy` without setter, so a
+constant / method / signal of that name makes `setattr` raise.  Result: the names that end up as forwarding stubs. -/
+def proxyBuild (ms consts sigs : List Name) : Except PyExc (List Name) :=
+  if (consts ++ ms ++ sigs).contains n_address then .error .attributeError
+  else .ok (ms.filter (fun n => !sigs.contains n && n != n_rpc_nonblocking))
+
+/-- nothing overwrites a stub: no signal, `address`, `rpc_nonblocking` is an advertised method, and `address` is
+neither a constant nor a signal -/
+def proxyCleanB (C : RpcClass) : Bool :=
+  (n_address :: n_rpc_nonblocking :: C.sigs).all (fun n => !isAdvertised C n)
+  && !(C.consts ++ C.sigs).contains n_address
+
+/-- the side conditions of the per-class obligation `full_<Class>` beyond `WellFormed`: the refused branch runs no code
+of the object, every constant passes the asserts, the proxy forwards exactly the advertised methods -/
+def gateProxyOkB (C : RpcClass) : Bool :=
+  !dynAttrRunsCode C n__name && C.consts.all (constOk C) && proxyCleanB C
 
 /-- the member that resolves for `n` was explicitly declared with `@rpc_method` in its class body -/
 def declared (C : RpcClass) (n : Name) : Bool :=
